@@ -256,3 +256,99 @@ func verifScanStep() {
 		verifrt.Reach("some-released-some-not", nRel > 0 && nRel < nD)
 	}
 }
+
+// ---- "delivered soon after": the queue scanner can reach every channel ------------------------
+//
+// queueScanLoop wakes on its ticker, hands QueueScanSelectionCount randomly selected channels of
+// its cached channel list to the worker pool and repeats at once while more than
+// QueueScanDirtyPercent of them had work. Which channels are looked at is random, so nothing
+// holds for every random outcome - but for every channel there must BE an outcome that selects
+// it, otherwise its expired and deferred messages are never delivered. The real loop and its
+// real workers run as goroutines against three channels that each hold one due deferred
+// message; math/rand is an arbitrary value (the solver picks the outcomes); the property is
+// verifrt.Possible: some outcome of one tick releases all three (a channel that no outcome can
+// select makes this unsatisfiable on every path = violation). For every outcome: no panic (index
+// arithmetic of the selection), nothing is released that is not due, every worker answer is
+// collected (the loop is back at its select afterwards: it still answers the exit signal).
+
+var verifScanTick, verifRefreshTick chan time.Time
+var verifScanInterval time.Duration
+
+func verifScanTickerStub(d time.Duration) *time.Ticker {
+	if d == verifScanInterval {
+		return &time.Ticker{C: verifScanTick}
+	}
+	return &time.Ticker{C: verifRefreshTick}
+}
+
+func VerifC04_QueueScanReachesEveryChannel() {
+	o := verifOpts()
+	o.MemQueueSize = 2
+	o.QueueScanInterval = 20 * time.Millisecond
+	o.QueueScanRefreshInterval = time.Hour
+	o.QueueScanSelectionCount = verifrt.Bound("scan-selection-count", 1, 2)
+	o.QueueScanWorkerPoolMax = 2
+	o.QueueScanDirtyPercent = 0.25
+	n := verifShellNSQD(o)
+	verifrt.Stub("(*github.com/nsqio/nsq/nsqd.NSQD).Notify", verifNotifyNop)
+	verifrt.Preemptions(0)
+	if verifrt.Symbolic() {
+		verifScanInterval = o.QueueScanInterval
+		verifScanTick, verifRefreshTick = make(chan time.Time), make(chan time.Time)
+		verifrt.Stub("time.NewTicker", verifScanTickerStub)
+		verifrt.Stub("(*time.Ticker).Stop", verifTickerStopStub)
+	}
+	names := []string{"a", "b", "c"}[:verifrt.Bound("scan-channels", 2, 3)]
+	var chans []*Channel
+	var due, later []*Message
+	exited := false
+	verifrt.Atomic(func() {
+		verifConcreteIDs, verifIDSeq = true, 0
+		t := NewTopic("t", n, func(*Topic) {})
+		n.topicMap["t"] = t
+		for _, nm := range names {
+			c := t.GetChannel(nm)
+			chans = append(chans, c)
+			m := verifMsg("due-"+nm, 1)
+			c.StartDeferredTimeout(m, 0)
+			// already due: released by the first scan that looks at this channel
+			c.deferredPQ[0].Priority = 1
+			due = append(due, m)
+			l := verifMsg("later-"+nm, 1)
+			c.StartDeferredTimeout(l, time.Hour)
+			c.deferredMessages[l.ID].Priority = 1 << 62 // not due under any clock
+			later = append(later, l)
+		}
+	})
+	go func() {
+		n.queueScanLoop()
+		exited = true
+	}()
+	verifrt.Rest()
+	if verifrt.Symbolic() {
+		verifScanTick <- time.Time{}
+	} else {
+		time.Sleep(400 * time.Millisecond)
+	}
+	verifrt.Rest()
+	released := 0
+	for i, c := range chans {
+		_, stillDeferred := c.deferredMessages[due[i].ID]
+		if !stillDeferred {
+			released++
+			verifrt.Assert(c.Depth() == 1, "released-message-is-queued-once")
+		} else {
+			verifrt.Assert(c.Depth() == 0, "unscanned-channel-unchanged")
+		}
+		_, laterDeferred := c.deferredMessages[later[i].ID]
+		verifrt.Assert(laterDeferred, "message-not-yet-due-stays-deferred")
+	}
+	verifrt.Assert(released >= o.QueueScanSelectionCount, "one-tick-scans-the-configured-number-of-channels")
+	verifrt.Possible("some-outcome-of-a-tick-reaches-every-channel", released == len(chans))
+	close(n.exitChan)
+	verifrt.Rest()
+	if !verifrt.Symbolic() {
+		time.Sleep(100 * time.Millisecond)
+	}
+	verifrt.Assert(exited, "scan-loop-still-answers-the-exit-signal")
+}
